@@ -129,11 +129,19 @@ func (h *vrfC05) onCall(d *vrfDaemon, kind string, ctx context.Context, pin *api
 	if vrf_nondet_bool("ipfs_call_fails") {
 		return vrfErrDaemon
 	}
+	var err error
 	if kind == "pin" {
-		return h.applyPin(pin)
+		err = h.applyPin(pin)
+	} else {
+		d.applyUnpin(pin)
 	}
-	d.applyUnpin(pin)
-	return nil
+	// the daemon has done its part; further instructions may arrive before the
+	// worker gets to see the reply
+	for vrf_param("reply_nesting") == 1 && h.nested > 0 && vrf_choice("instruction_while_reply_in_flight", 2) == 1 {
+		h.nested--
+		h.instruction(false)
+	}
+	return err
 }
 
 func (h *vrfC05) applyPin(pin *api.Pin) error {
@@ -146,9 +154,11 @@ func (h *vrfC05) applyPin(pin *api.Pin) error {
 }
 
 func (h *vrfC05) drain() {
+	// the two workers are independent goroutines: either may get ahead of the other
+	unpinFirst := vrf_param("reply_nesting") == 1 && vrf_choice("unpin_worker_runs_first", 2) == 1
 	for i := 0; i < 2*(h.spt.config.MaxPinQueueSize+1); i++ {
-		a := vrfWorkerStep(h.spt, false)
-		b := vrfWorkerStep(h.spt, true)
+		a := vrfWorkerStep(h.spt, unpinFirst)
+		b := vrfWorkerStep(h.spt, !unpinFirst)
 		if !a && !b {
 			break
 		}
